@@ -23,8 +23,9 @@ Require Import Cirbo.Proofs.WFBase Cirbo.Proofs.WFEmplace Cirbo.Proofs.WFStep Ci
 Require Import Cirbo.Generated.Converters Cirbo.Proofs.WFBench Cirbo.Proofs.ConvertersGen Cirbo.Proofs.ConvertersGenWF.
 Require Import Cirbo.Model.Eval Cirbo.Model.TseytinAlg.
 Require Import Cirbo.Generated.CircuitCore Cirbo.Proofs.CircuitCoreGen Cirbo.Proofs.CircuitCoreGen2.
-Require Import Cirbo.Model.Traverse Cirbo.Generated.CircuitAlgos Cirbo.Proofs.CircuitAlgosGen
-        Cirbo.Proofs.CircuitAlgosGen2 Cirbo.Proofs.CircuitAlgosGen3 Cirbo.Proofs.CircuitAlgosGenSum.
+Require Import Cirbo.Model.Traverse Cirbo.Model.Bench Cirbo.Generated.CircuitAlgos Cirbo.Proofs.CircuitAlgosGen
+        Cirbo.Proofs.CircuitAlgosGen2 Cirbo.Proofs.CircuitAlgosGen3 Cirbo.Proofs.CircuitAlgosGen4
+        Cirbo.Proofs.CircuitAlgosGen5 Cirbo.Proofs.CircuitAlgosGen6 Cirbo.Proofs.CircuitAlgosGenSum.
 
 Theorem C02_empty_wf : WF empty_circuit /\ inputs_nullary empty_circuit.
 Proof. exact Inv_empty. Qed.
@@ -133,8 +134,12 @@ Proof. exact core_removal_regenerated_wf. Qed.
    evaluate_circuit_outputs, evaluate, evaluate_at, get_truth_table (and the properties size, input_size) from
    circuit.py as gen_<name> (Generated/CircuitAlgos.v) on every check.
    - fuel: every `while` loop of the source is a Fixpoint on explicit fuel and the fuel is a parameter of the
-     generated function; the statements instantiate it with the fuel the model uses (S (size c) for top_sort,
-     eval_fuel for evaluate_circuit);
+     generated function: a number for a loop of the function itself, a function of the circuit for a fuel
+     parameter of a function it calls (applied, at the call, to the circuit the callee runs on).  The statements
+     instantiate them with the fuel the model uses:
+       size_fuel c = S (size c) (top_sort, the loop of make_block_from_slice),
+       outputs_fuel c = eval_fuel c (outputs c), at_fuel c = 2 * (1 + sum_arity c) + 1 (evaluate_circuit),
+       traverse_fuel_of starts inverse c = traverse_fuel c (the start list) (_traverse_circuit);
    - keys_ok c := NoDup (dkeys (gates c)): the gate map has no repeated key.  True of every Python dict and part
      of WF; necessary for the association-list representation (C02_algorithms_corners, first part): top_sort
      builds its indegree dict by a dict comprehension over the gate map, the model by a map;
@@ -159,29 +164,29 @@ Theorem C02_algorithms_regenerated :
   (forall c inv, keys_ok c -> (do r <- gen_top_sort (S (size c)) c inv; Ok (map fst r)) = top_sort inv c) /\
   (forall c inv fuel r, gen_top_sort fuel c inv = Ok r -> Forall (fun p => get_gate c (fst p) = Ok (snd p)) r) /\
   (forall c other tc oc right name ap, keys_ok other ->
-     gen_connect_circuit (S (size other)) c other tc oc right name ap = connect_circuit c other tc oc right name ap) /\
+     gen_connect_circuit size_fuel c other tc oc right name ap = connect_circuit c other tc oc right name ap) /\
   (forall c other tc name ap, keys_ok other ->
-     gen_connect_left (S (size other)) c other tc name ap = connect_left c other tc name ap) /\
+     gen_connect_left size_fuel c other tc name ap = connect_left c other tc name ap) /\
   (forall c other oc name ap, keys_ok other ->
-     gen_connect_right (S (size other)) c other oc name ap = connect_right c other oc name ap) /\
+     gen_connect_right size_fuel c other oc name ap = connect_right c other oc name ap) /\
   (forall c other name ap, keys_ok other ->
-     gen_connect_inputs (S (size other)) c other name ap = connect_inputs c other name ap) /\
+     gen_connect_inputs size_fuel c other name ap = connect_inputs c other name ap) /\
   (forall c other tc oc right name ap, keys_ok other ->
-     gen_extend_circuit (S (size other)) c other tc oc right name ap = extend_circuit c other tc oc right name ap) /\
+     gen_extend_circuit size_fuel c other tc oc right name ap = extend_circuit c other tc oc right name ap) /\
   (forall c other name ap, keys_ok other ->
-     gen_add_circuit (S (size other)) c other name ap = add_circuit c other name ap) /\
-  (forall c, keys_ok c -> gen___copy__ (S (size c)) c = copy_circuit c) /\
+     gen_add_circuit size_fuel c other name ap = add_circuit c other name ap) /\
+  (forall c, keys_ok c -> gen___copy__ size_fuel c = copy_circuit c) /\
   (forall b c, gen_Block_into_circuit b c = block_into_circuit c b) /\
-  (forall c a, keys_ok c -> gen_evaluate_full_circuit (S (size c)) c a = evaluate_full_circuit c a) /\
+  (forall c a, keys_ok c -> gen_evaluate_full_circuit size_fuel c a = evaluate_full_circuit c a) /\
   (forall c a outs fuel, agree c (gen_evaluate_circuit fuel c a outs) (evaluate_circuit_fuel fuel c a outs)) /\
   (forall c a outs,
      agree c (gen_evaluate_circuit (eval_fuel c (match outs with Some o => o | None => outputs c end)) c a outs)
            (evaluate_circuit c a outs)) /\
-  (forall c a, agree c (gen_evaluate_circuit_outputs (eval_fuel c (outputs c)) c a) (evaluate_circuit_outputs c a)) /\
-  (forall c vals, agree c (gen_evaluate (eval_fuel c (outputs c)) c vals) (evaluate c vals)) /\
+  (forall c a, agree c (gen_evaluate_circuit_outputs outputs_fuel c a) (evaluate_circuit_outputs c a)) /\
+  (forall c vals, agree c (gen_evaluate outputs_fuel c vals) (evaluate c vals)) /\
   (forall c vals i,
-     agree c (gen_evaluate_at (2 * (1 + sum_arity c) + 1) c vals (Z.of_nat i)) (evaluate_at c vals i)) /\
-  (forall c, agree c (gen_get_truth_table (eval_fuel c (outputs c)) c) (get_truth_table c)).
+     agree c (gen_evaluate_at at_fuel c vals (Z.of_nat i)) (evaluate_at c vals i)) /\
+  (forall c, agree c (gen_get_truth_table outputs_fuel c) (get_truth_table c)).
 Proof. exact algorithms_regenerated. Qed.
 
 Theorem C02_algorithms_agree_spec : forall A (c : circuit) (g h : res A),
@@ -198,14 +203,14 @@ Proof. exact agree_consequences. Qed.
 
 (* on a well-formed circuit (unique keys, acyclic) every regenerated evaluator EQUALS the model *)
 Theorem C02_evaluators_regenerated_wf : forall c, WF c ->
-  (forall a, gen_evaluate_full_circuit (S (size c)) c a = evaluate_full_circuit c a) /\
+  (forall a, gen_evaluate_full_circuit size_fuel c a = evaluate_full_circuit c a) /\
   (forall a outs,
      gen_evaluate_circuit (eval_fuel c (match outs with Some o => o | None => outputs c end)) c a outs
      = evaluate_circuit c a outs) /\
-  (forall a, gen_evaluate_circuit_outputs (eval_fuel c (outputs c)) c a = evaluate_circuit_outputs c a) /\
-  (forall vals, gen_evaluate (eval_fuel c (outputs c)) c vals = evaluate c vals) /\
-  (forall vals i, gen_evaluate_at (2 * (1 + sum_arity c) + 1) c vals (Z.of_nat i) = evaluate_at c vals i) /\
-  gen_get_truth_table (eval_fuel c (outputs c)) c = get_truth_table c.
+  (forall a, gen_evaluate_circuit_outputs outputs_fuel c a = evaluate_circuit_outputs c a) /\
+  (forall vals, gen_evaluate outputs_fuel c vals = evaluate c vals) /\
+  (forall vals i, gen_evaluate_at at_fuel c vals (Z.of_nat i) = evaluate_at c vals i) /\
+  gen_get_truth_table outputs_fuel c = get_truth_table c.
 Proof. exact evaluators_regenerated_wf. Qed.
 
 (* keys_ok follows from the invariant of C02_step_wf *)
@@ -218,6 +223,65 @@ Theorem C02_algorithms_corners :
   (gen_evaluate_circuit (eval_fuel self_loop_circuit ["g"]) self_loop_circuit [] None = Err PyKeyError /\
    evaluate_circuit self_loop_circuit [] None = Err OutOfFuel).
 Proof. exact algorithms_corners. Qed.
+
+(* fourth group (T10): make_block_from_slice, get_gates_truth_table, format_circuit, the driver loop of into_bench,
+   _traverse_circuit with its wrappers dfs / bfs, and validation.check_circuit_has_no_cycles.
+   - make_block_from_slice collects the gates in a Python set and starts its work list with `list(gates)`, whose
+     order is the hash order of the strings.  The regenerated function takes the gate-map order, the model the
+     order of the `outputs` argument; the loop itself is the same function (Proofs/CircuitAlgosGen4.v
+     gen_slice_loop_eq).  The order is irrelevant for the result (the loop computes the least set containing the
+     start gates and closed under "operand that is not a block input"; the stored gate list is canonical):
+     slice_agree g h := the circuit returned by g is h's, or both raise GateDoesntExistError / CreateBlockError
+     (possibly a different one of the two: C02_slice_corner).  The second clause: the Block returned by the
+     source is the one stored under its name;
+   - into_bench: the rules are regenerated by T6 (generated_convert_gate); the driver loop over a snapshot of
+     the gate map, handing one uuid4().hex value to every rule that needs one, is regenerated here and equals the
+     driver of Proofs/ConvertersGen.v, hence (C14_rules_regenerated) has the normal returns of the model and
+     equals it outside the LT / LEQ one-operand corner;
+   - _traverse_circuit: the five hooks are observed as the event log of the model (a call of a hook = an event,
+     a yield = EvYield); on_discover_hook may raise depending on the label and state of the discovered gate
+     (`abort`); keys_ok is needed only with topsort_unvisited (it calls top_sort). *)
+Theorem C02_algorithms_regenerated_2 :
+  (forall c name ins outs, keys_ok c ->
+     slice_agree (gen_make_block_from_slice (S (size c)) c name ins outs) (make_block_from_slice c name ins outs)) /\
+  (forall fuel c name ins outs c' b,
+     gen_make_block_from_slice fuel c name ins outs = Ok (c', b) -> get_block c' name = Ok b) /\
+  (forall c, keys_ok c -> gen_get_gates_truth_table size_fuel c = get_gates_truth_table c) /\
+  (forall c, gen_format_circuit c = Ok (format_circuit c)) /\
+  (forall c fresh, gen_into_bench c fresh = generated_into_bench c fresh) /\
+  (forall c fresh c', gen_into_bench c fresh = Ok c' <-> into_bench c fresh = Ok c') /\
+  (forall c fresh,
+     (forall x g, In (x, g) (gates c) -> gtyp g = LT \/ gtyp g = LEQ -> length (gops g) <> 1%nat) ->
+     gen_into_bench c fresh = into_bench c fresh) /\
+  (forall c mode starts inverse tsu abort, (tsu = true -> keys_ok c) ->
+     gen__traverse_circuit (traverse_fuel c (start_queue c starts inverse)) size_fuel c mode starts inverse tsu abort
+     = traverse mode inverse c starts tsu abort) /\
+  (forall c starts inverse tsu abort, (tsu = true -> keys_ok c) ->
+     gen_dfs (traverse_fuel_of starts inverse) size_fuel c starts inverse tsu abort
+     = traverse DFS inverse c starts tsu abort) /\
+  (forall c starts inverse tsu abort, (tsu = true -> keys_ok c) ->
+     gen_bfs (traverse_fuel_of starts inverse) size_fuel c starts inverse tsu abort
+     = traverse BFS inverse c starts tsu abort) /\
+  (forall c starts,
+     gen_check_circuit_has_no_cycles (traverse_fuel_of starts false) size_fuel c starts
+     = check_circuit_has_no_cycles_from c starts).
+Proof. exact algorithms_regenerated_2. Qed.
+
+Theorem C02_slice_agree_spec : forall (g : res (circuit * block)) (h : res circuit),
+  slice_agree g h <->
+  ((do p <- g; Ok (fst p)) = h \/
+   (exists e1 e2, g = Err e1 /\ h = Err e2 /\
+      (e1 = GateDoesntExistError \/ e1 = CreateBlockError) /\ (e2 = GateDoesntExistError \/ e2 = CreateBlockError))).
+Proof. exact slice_agree_spec. Qed.
+
+Theorem C02_slice_agree_consequences : forall (g : res (circuit * block)) (h : res circuit), slice_agree g h ->
+  (forall c', (exists b, g = Ok (c', b)) <-> h = Ok c') /\ is_ok g = is_ok h.
+Proof. exact slice_agree_consequences. Qed.
+
+Theorem C02_slice_corner :
+  gen_make_block_from_slice 4 slice_corner "B" [] ["a"; "b"] = Err CreateBlockError /\
+  make_block_from_slice slice_corner "B" [] ["a"; "b"] = Err GateDoesntExistError.
+Proof. exact slice_corner_real. Qed.
 
 (* non-vacuity: a history through 11 kinds of calls (a left connection of another circuit, the
    bench conversion of an LT gate, block removal, ...) whose side conditions hold, which runs to
